@@ -115,3 +115,210 @@ Example ex_wire_length_hyp :
              mkModule "Q" (Some (qc 6 1, qc 8 1)) None true true false false [("_", 0)] []] in
   net_sqdists ms (mkNet ["P"; "Q"] 1) = Some [qc 25 1; qc 25 1].
 Proof. vm_compute. reflexivity. Qed.
+
+(* ---- the full round trip (Yaml/NetlistImage.v) is not vacuous ---- *)
+From FrameModel Require Import Yaml.NetlistImage.
+
+(* a hard module whose trunk is its SECOND rectangle ([1,3,2,2] sits on top of
+   [2,1,4,2]): the load swaps the trunk to the front, the written document
+   lists it first, and the reload finds it there *)
+Definition doc1 : ytree :=
+  YMap [("Modules", YMap [
+           ("B", YMap [("hard", YBool true);
+                       ("rectangles", YList [
+                          YList [YNum (qc 1 1) true; YNum (qc 3 1) true; YNum (qc 2 1) true; YNum (qc 2 1) true];
+                          YList [YNum (qc 2 1) true; YNum (qc 1 1) true; YNum (qc 4 1) true; YNum (qc 2 1) true]])]);
+           ("A", YMap [("area", YNum (qc 3 1) true)])]);
+        ("Nets", YList [YList [YStr "A"; YStr "B"]])].
+
+Example ex_doc1_swapped : exists n, read_netlist sqrt0 e0 doc1 = Ok n /\
+  match nl_modules n with
+  | m :: _ => match m_rects m with
+              | r :: r' :: _ => mr_loc r = TRUNK /\ sval (mr_x r) = qc 2 1 /\ mr_loc r' = NORTH
+              | _ => False
+              end
+  | _ => False
+  end.
+Proof. eexists. split; [vm_compute; reflexivity|]. cbn. repeat split. Qed.
+
+Example ex_doc1_round_trip : exists n n',
+  read_netlist sqrt0 e0 doc1 = Ok n /\ read_netlist sqrt0 e0 (write_netlist n) = Ok n' /\
+  nl_modules n' = nl_modules n /\ write_netlist n' = write_netlist n.
+Proof.
+  destruct ex_doc1_swapped as (n & H & _).
+  destruct (rt_read_write sqrt0 e0 doc1 n H) as (n' & A & B & C & _).
+  exists n, n'. repeat split; auto. unfold write_netlist. rewrite B, C. reflexivity.
+Qed.
+
+Example ex_doc0_round_trip : exists n n',
+  read_netlist sqrt0 None doc0 = Ok n /\ read_netlist sqrt0 None (write_netlist n) = Ok n' /\
+  write_netlist n' = write_netlist n.
+Proof.
+  assert (H : exists n, read_netlist sqrt0 None doc0 = Ok n) by (eexists; vm_compute; reflexivity).
+  destruct H as (n & H). destruct (rt_idempotent sqrt0 None doc0 n H) as (n' & A & B). eauto.
+Qed.
+
+(* ---- well_formed_doc / doc_geometry_ok (Yaml/NetlistAccept.v) are satisfiable ---- *)
+From FrameModel Require Import Yaml.NetlistDoc Yaml.NetlistAccept.
+
+(* every (key, value) of a concrete mapping *)
+Ltac in_cases H :=
+  cbn [In] in H;
+  repeat (destruct H as [H|H]; [inversion H; subst; clear H|]); [..|destruct H].
+
+Ltac wf_info_tac :=
+  constructor;
+  [ reflexivity
+  | intros k v H; in_cases H; reflexivity
+  | intros v H; in_cases H; eexists _, _, _, _; repeat split; reflexivity
+  | intros v H; in_cases H
+  | intros v H; in_cases H
+  | intros v H; in_cases H; eexists; reflexivity
+  | intros v H; in_cases H; split; reflexivity
+  | intros v H; in_cases H; reflexivity
+  | intros v H; in_cases H; repeat split; reflexivity
+  | intros v H; in_cases H
+  | try discriminate; try (intros _; split; reflexivity)
+  | try discriminate; try (intros _; repeat split; try reflexivity; try discriminate)
+  | try discriminate; try (intros _ _; reflexivity) ].
+
+Lemma wf_entry_2_1_4_2 ra : wf_rect_entry ra
+  (YList [YNum (qc 2 1) true; YNum (qc 1 1) true; YNum (qc 4 1) true; YNum (qc 2 1) true]).
+Proof.
+  eexists _, _, _, _, _, _, _, _, _. split; [reflexivity|].
+  repeat split; try reflexivity; try qdec. left. reflexivity.
+Qed.
+Lemma wf_entry_1_3_2_2 ra : wf_rect_entry ra
+  (YList [YNum (qc 1 1) true; YNum (qc 3 1) true; YNum (qc 2 1) true; YNum (qc 2 1) true]).
+Proof.
+  eexists _, _, _, _, _, _, _, _, _. split; [reflexivity|].
+  repeat split; try reflexivity; try qdec. left. reflexivity.
+Qed.
+
+Example ex_doc1_info_B : wf_info
+  [("hard", YBool true);
+   ("rectangles", YList [
+      YList [YNum (qc 1 1) true; YNum (qc 3 1) true; YNum (qc 2 1) true; YNum (qc 2 1) true];
+      YList [YNum (qc 2 1) true; YNum (qc 1 1) true; YNum (qc 4 1) true; YNum (qc 2 1) true]])].
+Proof.
+  wf_info_tac.
+  right. eexists. split; [reflexivity|]. split; [discriminate|].
+  repeat constructor; [apply wf_entry_1_3_2_2|apply wf_entry_2_1_4_2].
+Qed.
+
+Example ex_doc1_info_A : wf_info [("area", YNum (qc 3 1) true)].
+Proof.
+  wf_info_tac. left. eexists. split; [reflexivity|qdec].
+Qed.
+
+Example ex_doc1_well_formed : well_formed_doc doc1.
+Proof.
+  eexists. split; [reflexivity|]. split; [reflexivity|]. split; [|split].
+  - intros k v H. in_cases H; auto.
+  - intros v H. in_cases H. eexists. split; [reflexivity|]. split; [reflexivity|].
+    intros name i H. in_cases H; (split; [reflexivity|]); eexists; (split; [reflexivity|]).
+    + exact ex_doc1_info_B.
+    + exact ex_doc1_info_A.
+  - intros v H. in_cases H. eexists. split; [reflexivity|].
+    intros n H. in_cases H. exists ["A"; "B"], []. split; [reflexivity|]. split; [cbn; lia|].
+    split; [|left; reflexivity]. intros b H. in_cases H; cbn; auto.
+Qed.
+
+Example ex_doc1_geometry : doc_geometry_ok (qc 1 1000000) (qc 1 1000) doc1.
+Proof.
+  intros name info v (items & mods & E & H1 & H2) Hl. inversion E; subst items; clear E.
+  in_cases H1. in_cases H2; cbn in Hl; inversion Hl; subst v; clear Hl.
+  split.
+  - intros _ _. vm_compute. reflexivity.
+  - intros H. vm_compute in H. discriminate.
+Qed.
+
+Example ex_doc1_accepted : exists n, read_netlist sqrt0 e0 doc1 = Ok n.
+Proof. exact (accept_well_formed_doc_eps sqrt0 _ _ doc1 ex_doc1_well_formed ex_doc1_geometry). Qed.
+
+(* the literal form of the hard-module reject theorems *)
+Example ex_hard_with_area_doc :
+  rejects (read_netlist sqrt0 None
+    (doc_with_module [("area", YNum (qc 4 1) true); ("fixed", YBool true);
+                      ("rectangles", YList [YNum (qc 2 1) true; YNum (qc 2 1) true; YNum (qc 2 1) true; YNum (qc 2 1) true])])).
+Proof.
+  eapply reject_hard_with_area_doc; [apply module_at_doc|right; right; left; reflexivity|left; reflexivity|discriminate].
+Qed.
+
+Example ex_hard_without_rectangles_doc :
+  rejects (read_netlist sqrt0 None (doc_with_module [("hard", YBool true)])).
+Proof.
+  eapply reject_hard_without_rectangles_doc; [apply module_at_doc|left; left; reflexivity| |reflexivity].
+  intros H. in_cases H.
+Qed.
+
+(* [2,2,4,4] and [3,3,4,4] share a 3 x 3 square *)
+Example ex_hard_overlap_doc :
+  rejects (read_netlist sqrt0 e0
+    (doc_with_module [("hard", YBool true);
+                      ("rectangles", YList [
+                         YList [YNum (qc 2 1) true; YNum (qc 2 1) true; YNum (qc 4 1) true; YNum (qc 4 1) true];
+                         YList [YNum (qc 3 1) true; YNum (qc 3 1) true; YNum (qc 4 1) true; YNum (qc 4 1) true]])])).
+Proof.
+  eapply reject_hard_overlap_doc_eps; [apply module_at_doc|left; left; reflexivity| |right; left; reflexivity|].
+  - intros H. in_cases H.
+  - exists [], (YList [YNum (qc 2 1) true; YNum (qc 2 1) true; YNum (qc 4 1) true; YNum (qc 4 1) true]), [],
+           (YList [YNum (qc 3 1) true; YNum (qc 3 1) true; YNum (qc 4 1) true; YNum (qc 4 1) true]), [].
+    eexists _, _. split; [reflexivity|]. split; [reflexivity|]. split; [reflexivity|]. vm_compute. reflexivity.
+Qed.
+
+(* ---- unconditional acceptance: hard modules with one rectangle ---- *)
+Lemma wf_entry_2_2_4_4 ra : wf_rect_entry ra
+  (YList [YNum (qc 2 1) true; YNum (qc 2 1) true; YNum (qc 4 1) true; YNum (qc 4 1) true]).
+Proof.
+  eexists _, _, _, _, _, _, _, _, _. split; [reflexivity|].
+  repeat split; try reflexivity; try qdec. left. reflexivity.
+Qed.
+
+Example ex_doc0_info_A : wf_info
+  [("area", YMap [("lut", YNum (qc 3 1) true); ("dsp", YNum (qc 2 1) true)]);
+   ("center", YList [YNum (qc 1 1) true; YNum (qc 2 1) true])].
+Proof.
+  wf_info_tac. right. eexists. split; [reflexivity|]. split; [discriminate|]. split; [reflexivity|].
+  repeat constructor; cbn; try reflexivity; eexists; (split; [reflexivity|qdec]).
+Qed.
+
+Example ex_doc0_info_B : wf_info
+  [("hard", YBool true); ("flip", YBool true);
+   ("rectangles", YList [YList [YNum (qc 2 1) true; YNum (qc 2 1) true; YNum (qc 4 1) true; YNum (qc 4 1) true]])].
+Proof.
+  wf_info_tac. right. eexists. split; [reflexivity|]. split; [discriminate|].
+  repeat constructor. apply wf_entry_2_2_4_4.
+Qed.
+
+Example ex_doc0_info_T : wf_info
+  [("terminal", YBool true); ("center", YList [YNum (qc 0 1) true; YNum (qc 5 1) true])].
+Proof. wf_info_tac. Qed.
+
+Example ex_doc0_well_formed : well_formed_doc doc0.
+Proof.
+  eexists. split; [reflexivity|]. split; [reflexivity|]. split; [|split].
+  - intros k v H. in_cases H; auto.
+  - intros v H. in_cases H. eexists. split; [reflexivity|]. split; [reflexivity|].
+    intros name i H. in_cases H; (split; [reflexivity|]); eexists; (split; [reflexivity|]).
+    + exact ex_doc0_info_A.
+    + exact ex_doc0_info_B.
+    + exact ex_doc0_info_T.
+  - intros v H. in_cases H. eexists. split; [reflexivity|].
+    intros n H. in_cases H.
+    + exists ["A"; "B"; "T"], [YNum (qc 2 1) false]. split; [reflexivity|]. split; [cbn; lia|].
+      split; [intros b H; in_cases H; cbn; auto|]. right. eexists _, _. split; [reflexivity|]. split; [reflexivity|qdec].
+    + exists ["A"; "T"], []. split; [reflexivity|]. split; [cbn; lia|].
+      split; [intros b H; in_cases H; cbn; auto|]. left. reflexivity.
+Qed.
+
+Example ex_doc0_hard_single : hard_single_rect doc0.
+Proof.
+  intros name info v (items & mods & E & H1 & H2) Hl Hh. inversion E; subst items; clear E.
+  in_cases H1. in_cases H2; cbn in Hl; inversion Hl; subst v; clear Hl.
+  right. eexists. split; [reflexivity|]. apply wf_entry_2_2_4_4.
+Qed.
+
+(* loaded whatever the epsilon state, e.g. undefined *)
+Example ex_doc0_accepted : exists n, read_netlist sqrt0 None doc0 = Ok n.
+Proof. exact (accept_well_formed_doc_single sqrt0 None doc0 ex_doc0_well_formed ex_doc0_hard_single). Qed.
